@@ -6,17 +6,22 @@ import RomeaProofs.Properties.C07
 
 `Bridge/C07.lean` shows that every translated member function acts on `abs o` as the model's function.  Here:
 
-* `srcStep` / `srcRun` fold the TRANSLATED member functions (`setDataSize`, both `setPreconditionner`, `estimateUsingCholeskyDecomposition`,
-  `weightedEstimate`) over a call history of one object record, `src_run_eq`: the object that results stands for the model's
-  `run` on the corresponding model operations (`toOp`) — for EVERY scalar type.  Buffer contents the callers write through `getJ()` /
-  `getY()` / `getW()` (not member-function code) enter as the call `poke`, which replaces the three coefficient functions.
+* `srcStepOut` / `srcStep` / `srcRun` / `srcOutputs` fold the TRANSLATED member functions (`setDataSize`, `setEstimateSize`, both
+  `setPreconditionner`, `estimateUsingCholeskyDecomposition`, `estimateUsingSVD`, `weightedEstimate`, `computeEstimateCovariance`) and the
+  callers' writes through `getJ()` / `getY()` / `getW()` (`pokeRow` = the model's `writeRow`, `pokeW` = `setW`, `pokeJ` / `pokeY` = ONE entry)
+  over a call history of one object record.  `src_run_eq`: the object that results stands for the model's `run` on the corresponding model
+  operations (`toOp`); `src_outputs_eq`: every value returned on the way is the model's output — for EVERY scalar type.
+  The model's op list has no write finer than a row, so a single-entry write is the `writeRow` of the row as it stands with the entry
+  replaced; this is exact for `run`, but at the SPECIFICATION level (`astep`) a `writeRow` counts the whole row as stated — histories meant
+  for the history-independence theorems state rows with `pokeRow`.
 * the property's headline theorems over ℝ, with the LAST call executed by the translated code on an object that stands for the state
-  reached by an arbitrary model history: `src_history_independent_cholesky / _weighted` (`C07.history_independent`),
-  `src_equals_fresh_solver` (`C07.equals_fresh_solver`), `src_cholesky_minimises` (`C07.estimateCholesky_spec` +
-  `C07.solution_minimises`), `src_weighted_minimiser`.
-The oracle of the translation (`ldlt_solve`) and the oracle of the model (`Env.ldltInv`) are required to be the same routine on the
-call the source makes (`LdltAgree`: `solve(Identity(e, e))`); `ldltAgree_exists` shows the requirement satisfiable for every model oracle
-that returns `e × e` arrays.
+  reached by an arbitrary model history: `src_history_independent_cholesky / _weighted / _svd` (`C07.history_independent`),
+  `src_equals_fresh_solver`, `src_svd_equals_fresh_solver` (`C07.equals_fresh_solver`), `src_cholesky_minimises`, `src_svd_minimises`
+  (`C07.estimateCholesky_spec` / `estimateSVD_spec` + `C07.solution_minimises`), `src_weighted_minimiser`, `src_cholesky_eq_svd`;
+* with the WHOLE history through the translated code too: `src_run_history_independent_svd / _cholesky`.
+The oracles of the translation (`ldlt_solve`, the three `JacobiSVD` accessors, `resize_J_`) and those of the model (`Env`, junk) are required
+to be the same routines on the calls the source makes (`LdltAgree`, `SvdAgree`; `ResizeKeeps` for `setEstimateSize`);
+`ldltAgree_exists`, `svdAgree_exists`, `resizeKeeps_exists` show the requirements satisfiable.
 -/
 set_option linter.unusedSectionVars false
 set_option linter.unusedVariables false
@@ -29,70 +34,192 @@ open Romea Romea.LeastSquares
 section
 variable {α : Type} [NatCast α] [Add α] [Mul α] [Div α] [LT α] [DecidableLT α] [Limits α]
 
-/-- calls on one translated object -/
+/-- the external routines the translated code calls: `JtJ_.ldlt().solve(…)` and the three accessors of the local `JacobiSVD` object -/
+structure Oracles (α : Type) where
+  ldlt : Int → (Int → Int → α) → Int → Int → (Int → Int → α) → Int → (Int → Int → α)
+  svdU : Int → (Int → Int → α) → Int → String → (Int → Int → α)
+  svdV : Int → (Int → Int → α) → Int → String → (Int → Int → α)
+  svdS : Int → (Int → Int → α) → Int → String → (Int → α)
+
+/-- the translation's oracles and the model's `Env` are the same routines on the calls the source makes -/
+def Agree (env : Env α) (orc : Oracles α) : Prop := LdltAgree env orc.ldlt ∧ SvdAgree env orc.svdU orc.svdV orc.svdS
+
+/-- calls on one translated object: the member functions, and the callers' writes through `getJ()` / `getY()` / `getW()` -/
 inductive SrcOp (α : Type)
   | setDataSize (n : Nat) (rzJ : Int → (Int → Int → α) → Int → Int → Int → (Int → Int → α)) (rzW rzY : (Int → α) → Int → Int → (Int → α))
+  | setEstimateSize (e : Nat) (rzJ : Int → (Int → Int → α) → Int → Int → Int → (Int → Int → α))
   | setPre (A : Int → Int → α) (b : Int → α)
   | setPreA (A : Int → Int → α)
+  /-- a caller stating row `i`: `getJ()(i, c) = r c` for `c < estimateSize_`, `getY()(i) = y` (the model's `writeRow`) -/
+  | pokeRow (i : Nat) (r : Int → α) (y : α)
+  /-- `getJ()(i, c) = x`: ONE entry -/
+  | pokeJ (i c : Nat) (x : α)
+  /-- `getY()(i) = y`: ONE entry -/
+  | pokeY (i : Nat) (y : α)
+  /-- `getW()(i) = w` (the model's `setW`) -/
+  | pokeW (i : Nat) (w : α)
   | cholesky
+  | svd
   | weighted
+  /-- `computeEstimateCovariance(var)` (const: the object is not changed) -/
+  | covariance (var : α)
 
-/-- one call executed by the TRANSLATED code (`none`: a translated loop failed — never, by `src_step_eq`) -/
-def srcStep (ldlt : Int → (Int → Int → α) → Int → Int → (Int → Int → α) → Int → (Int → Int → α)) (o : Obj α) : SrcOp α → Option (Obj α)
-  | .setDataSize n rzJ rzW rzY => some (srcSetDataSize rzJ rzW rzY o n).1
-  | .setPre A b => some (srcSetPre o A o.estimateSize_ o.estimateSize_ b o.estimateSize_)
-  | .setPreA A => some (srcSetPreA o A o.estimateSize_ o.estimateSize_)
-  | .cholesky => (srcCholesky ldlt o).map (·.1)
-  | .weighted => (srcWeighted ldlt o).map (·.1)
+/-- what a call needs of ITS `resize` oracle: `setEstimateSize` relies on Eigen keeping the storage when the number of coefficients is
+    unchanged (`ResizeKeeps`); `setDataSize` needs nothing (it only ever reallocates) -/
+def SrcOp.Ok : SrcOp α → Prop
+  | .setEstimateSize _ rzJ => ResizeKeeps rzJ
+  | _ => True
 
-/-- the model operation a call stands for, in the object state `o` it is issued in -/
+/-- one call executed by the TRANSLATED code: the object afterwards and what the call returned, read as the model's `Out` (a returned
+    dynamic vector / matrix is tabulated over ITS OWN returned sizes); `none`: a translated loop failed — never, by `src_step_out_eq` -/
+def srcStepOut (orc : Oracles α) (o : Obj α) : SrcOp α → Option (Obj α × Out α)
+  | .setDataSize n rzJ rzW rzY => some ((srcSetDataSize rzJ rzW rzY o n).1, .grew (srcSetDataSize rzJ rzW rzY o n).2)
+  | .setEstimateSize e rzJ => some (srcSetEstimateSize rzJ o e, .unit)
+  | .setPre A b => some (srcSetPre o A o.estimateSize_ o.estimateSize_ b o.estimateSize_, .unit)
+  | .setPreA A => some (srcSetPreA o A o.estimateSize_ o.estimateSize_, .unit)
+  | .pokeRow i r y => some (srcPokeRow o i r y, .unit)
+  | .pokeJ i c x => some (srcPokeJ o i c x, .unit)
+  | .pokeY i y => some (srcPokeY o i y, .unit)
+  | .pokeW i w => some (srcPokeW o i w, .unit)
+  | .cholesky => (srcCholesky orc.ldlt o).map fun r => (r.1, .vec (vecOf r.2.2 r.2.1))
+  | .svd => (srcSVD orc.svdU orc.svdV orc.svdS o).map fun r => (r.1, .vec (vecOf r.2.2 r.2.1))
+  | .weighted => (srcWeighted orc.ldlt o).map fun r => (r.1, .vec (vecOf r.2.2 r.2.1))
+  | .covariance var =>
+      let r := Src.C07.LeastSquares.computeEstimateCovariance_d o.Ac_cols o.Ac_m o.Ac_rows var o.inv_cols o.inv_m o.inv_rows
+      some (o, .mat (matOf r.2.2 r.1 r.2.1))
+
+/-- the object after one call -/
+def srcStep (orc : Oracles α) (o : Obj α) (c : SrcOp α) : Option (Obj α) := (srcStepOut orc o c).map (·.1)
+
+/-- the model operation a call stands for, in the object state `o` it is issued in.  The model's op list has no write finer than a row:
+    a single-entry write is the `writeRow` of the row AS IT STANDS in `o` with that entry replaced (`pokeJ_bridge`, `pokeY_bridge`). -/
 def toOp (o : Obj α) : SrcOp α → Op α
   | .setDataSize n rzJ rzW rzY =>
       .setDataSize n (fun i j => rzJ o.J_cols o.J_m o.J_rows n o.estimateSize_ i j) (fun i => rzY o.Y_m o.Y_rows n i)
+  | .setEstimateSize e rzJ => .setEstimateSize e (fun i j => rzJ o.J_cols o.J_m o.J_rows o.Y_rows e i j)
   | .setPre A b => .setPre (matOf o.estimateSize_ o.estimateSize_ A) (vecOf o.estimateSize_ b)
   | .setPreA A => .setPre (matOf o.estimateSize_ o.estimateSize_ A) (Vec.tab o.estimateSize_.toNat fun _ => zero)
+  | .pokeRow i r y => .writeRow i (vecOf o.estimateSize_ r) y
+  | .pokeJ i c x => .writeRow i (vecOf o.estimateSize_ fun b => if b = (c : Int) then x else o.J_m i b) (o.Y_m i)
+  | .pokeY i y => .writeRow i (vecOf o.estimateSize_ fun b => o.J_m i b) y
+  | .pokeW i w => .setW i w
   | .cholesky => .estimateCholesky
+  | .svd => .estimateSVD
   | .weighted => .weightedEstimate
+  | .covariance var => .covariance var
 
-theorem src_step_eq (env : Env α) (ldlt : Int → (Int → Int → α) → Int → Int → (Int → Int → α) → Int → (Int → Int → α))
-    (hl : LdltAgree env ldlt) (o : Obj α) (h : Inv o) (c : SrcOp α) :
-    ∃ o', srcStep ldlt o c = some o' ∧ abs o' = (step env (abs o) (toOp o c)).1 ∧ Inv o' := by
+/-- **one call**: the translated code never fails, the object afterwards stands for the model's next state, and what the call RETURNED
+    is the model's output (flag of `setDataSize`, the three estimates, the covariance) -/
+theorem src_step_out_eq (env : Env α) (orc : Oracles α) (ha : Agree env orc) (o : Obj α) (h : Inv o) (c : SrcOp α) (hc : c.Ok) :
+    ∃ o' out, srcStepOut orc o c = some (o', out) ∧ (abs o', out) = step env (abs o) (toOp o c) ∧ Inv o' := by
   cases c with
   | setDataSize n rzJ rzW rzY =>
-    refine ⟨_, rfl, ?_, setDataSize_inv rzJ rzW rzY o h n⟩
+    refine ⟨_, _, rfl, ?_, setDataSize_inv rzJ rzW rzY o h n⟩
     have := setDataSize_bridge rzJ rzW rzY o h n
     simp only [step, toOp]
     rw [← this]
-  | setPre A b => exact ⟨_, rfl, setPre_bridge o A _ _ b _, setPre_inv o h A b⟩
-  | setPreA A => exact ⟨_, rfl, setPreA_bridge o A _ _, setPreA_inv o h A⟩
+  | setEstimateSize e rzJ =>
+    refine ⟨_, _, rfl, ?_, setEstimateSize_inv rzJ o h e⟩
+    simp only [step, toOp]
+    rw [setEstimateSize_bridge rzJ hc o h e]
+  | setPre A b =>
+    refine ⟨_, _, rfl, ?_, setPre_inv o h A b⟩
+    simp only [step, toOp]
+    rw [setPre_bridge o A _ _ b _]
+  | setPreA A =>
+    refine ⟨_, _, rfl, ?_, setPreA_inv o h A⟩
+    simp only [step, toOp]
+    rw [setPreA_bridge o A _ _]
+  | pokeRow i r y =>
+    refine ⟨_, _, rfl, ?_, poke_inv o h _ _ _⟩
+    simp only [step, toOp]
+    rw [pokeRow_bridge o h i r y]
+  | pokeJ i c x =>
+    refine ⟨_, _, rfl, ?_, poke_inv o h _ _ _⟩
+    simp only [step, toOp]
+    rw [pokeJ_bridge o h i c x]
+  | pokeY i y =>
+    refine ⟨_, _, rfl, ?_, poke_inv o h _ _ _⟩
+    simp only [step, toOp]
+    rw [pokeY_bridge o h i y]
+  | pokeW i w =>
+    refine ⟨_, _, rfl, ?_, poke_inv o h _ _ _⟩
+    simp only [step, toOp]
+    rw [pokeW_bridge o i w]
   | cholesky =>
-    obtain ⟨o', x, n, h1, h2, _, _, h5⟩ := cholesky_bridge env ldlt hl o h
-    exact ⟨o', by simp [srcStep, h1], h2, h5⟩
+    obtain ⟨o', x, n, h1, h2, h3, _, h5⟩ := cholesky_bridge env orc.ldlt ha.1 o h
+    refine ⟨o', .vec (vecOf n x), by simp [srcStepOut, h1], ?_, h5⟩
+    simp only [step, toOp]
+    rw [h2, h3]
+  | svd =>
+    obtain ⟨o', x, n, h1, h2, h3, _, h5⟩ := svd_bridge env orc.svdU orc.svdV orc.svdS ha.2 o h
+    refine ⟨o', .vec (vecOf n x), by simp [srcStepOut, h1], ?_, h5⟩
+    simp only [step, toOp]
+    rw [h2, h3]
   | weighted =>
-    obtain ⟨o', x, n, h1, h2, _, _, h5⟩ := weighted_bridge env ldlt hl o h
-    exact ⟨o', by simp [srcStep, h1], h2, h5⟩
+    obtain ⟨o', x, n, h1, h2, h3, _, h5⟩ := weighted_bridge env orc.ldlt ha.1 o h
+    refine ⟨o', .vec (vecOf n x), by simp [srcStepOut, h1], ?_, h5⟩
+    simp only [step, toOp]
+    rw [h2, h3]
+  | covariance var =>
+    refine ⟨o, _, rfl, ?_, h⟩
+    simp only [step, toOp]
+    rw [(covariance_bridge o h var).1]
+
+theorem src_step_eq (env : Env α) (orc : Oracles α) (ha : Agree env orc) (o : Obj α) (h : Inv o) (c : SrcOp α) (hc : c.Ok) :
+    ∃ o', srcStep orc o c = some o' ∧ abs o' = (step env (abs o) (toOp o c)).1 ∧ Inv o' := by
+  obtain ⟨o', out, h1, h2, h3⟩ := src_step_out_eq env orc ha o h c hc
+  refine ⟨o', by simp [srcStep, h1], ?_, h3⟩
+  rw [← h2]
 
 /-- a call history through the translated code, together with the model operations it stands for -/
-def srcRun (ldlt : Int → (Int → Int → α) → Int → Int → (Int → Int → α) → Int → (Int → Int → α)) :
-    Obj α → List (SrcOp α) → Option (Obj α × List (Op α))
+def srcRun (orc : Oracles α) : Obj α → List (SrcOp α) → Option (Obj α × List (Op α))
   | o, [] => some (o, [])
   | o, c :: cs =>
-    match srcStep ldlt o c with
+    match srcStep orc o c with
     | none => none
-    | some o' => (srcRun ldlt o' cs).map fun r => (r.1, toOp o c :: r.2)
+    | some o' => (srcRun orc o' cs).map fun r => (r.1, toOp o c :: r.2)
 
-/-- **the translated object after any call history stands for the model's `run`** (every scalar type) -/
-theorem src_run_eq (env : Env α) (ldlt : Int → (Int → Int → α) → Int → Int → (Int → Int → α) → Int → (Int → Int → α))
-    (hl : LdltAgree env ldlt) (o : Obj α) (h : Inv o) (cs : List (SrcOp α)) :
-    ∃ o' ops, srcRun ldlt o cs = some (o', ops) ∧ abs o' = run env (abs o) ops ∧ Inv o' := by
+/-- **the translated object after any call history stands for the model's `run`** (every scalar type): member functions — both sizes,
+    both preconditioners, all three estimates — and caller writes, in any order -/
+theorem src_run_eq (env : Env α) (orc : Oracles α) (ha : Agree env orc) (o : Obj α) (h : Inv o) (cs : List (SrcOp α))
+    (hcs : ∀ c ∈ cs, c.Ok) :
+    ∃ o' ops, srcRun orc o cs = some (o', ops) ∧ abs o' = run env (abs o) ops ∧ Inv o' := by
   induction cs generalizing o with
   | nil => exact ⟨o, [], rfl, rfl, h⟩
   | cons c cs ih =>
-    obtain ⟨o1, h1, h2, h3⟩ := src_step_eq env ldlt hl o h c
-    obtain ⟨o', ops, h4, h5, h6⟩ := ih o1 h3
+    obtain ⟨o1, h1, h2, h3⟩ := src_step_eq env orc ha o h c (hcs c (List.mem_cons_self ..))
+    obtain ⟨o', ops, h4, h5, h6⟩ := ih o1 h3 (fun c' hc' => hcs c' (List.mem_cons_of_mem _ hc'))
     refine ⟨o', toOp o c :: ops, by simp [srcRun, h1, h4], ?_, h6⟩
     rw [h5, h2]
     rfl
+
+/-- the outputs of the model along an operation list -/
+def outputs (env : Env α) : State α → List (Op α) → List (Out α)
+  | _, [] => []
+  | s, op :: ops => (step env s op).2 :: outputs env (step env s op).1 ops
+
+/-- what the calls of a history RETURNED, through the translated code -/
+def srcOutputs (orc : Oracles α) : Obj α → List (SrcOp α) → Option (List (Out α))
+  | _, [] => some []
+  | o, c :: cs =>
+    match srcStepOut orc o c with
+    | none => none
+    | some r => (srcOutputs orc r.1 cs).map fun l => r.2 :: l
+
+/-- **every value returned along any call history through the translated code is the model's output** at that point of the history
+    (every scalar type): the reallocation flags, all three estimates, the covariances -/
+theorem src_outputs_eq (env : Env α) (orc : Oracles α) (ha : Agree env orc) (o : Obj α) (h : Inv o) (cs : List (SrcOp α))
+    (hcs : ∀ c ∈ cs, c.Ok) :
+    ∃ o' ops outs, srcRun orc o cs = some (o', ops) ∧ srcOutputs orc o cs = some outs ∧ outs = outputs env (abs o) ops := by
+  induction cs generalizing o with
+  | nil => exact ⟨o, [], [], rfl, rfl, rfl⟩
+  | cons c cs ih =>
+    obtain ⟨o1, out, h1, h2, h3⟩ := src_step_out_eq env orc ha o h c (hcs c (List.mem_cons_self ..))
+    obtain ⟨o', ops, outs, h4, h5, h6⟩ := ih o1 h3 (fun c' hc' => hcs c' (List.mem_cons_of_mem _ hc'))
+    refine ⟨o', toOp o c :: ops, out :: outs, by simp [srcRun, srcStep, h1, h4], by simp [srcOutputs, h1, h5], ?_⟩
+    simp only [outputs]
+    rw [← h2, h6]
 
 end
 
@@ -176,6 +303,186 @@ theorem src_weighted_minimiser (env : Env ℝ) (ldlt : Int → (Int → Int → 
   obtain ⟨o', x, n, h1, _, h3, _, _⟩ := weighted_bridge env ldlt hl o hi
   obtain ⟨z, hz1, hz2⟩ := weighted_minimiser env (abs o) hldlt hfull
   exact ⟨o', x, n, h1, z, by rw [h3]; exact hz1, hz2⟩
+
+/-! ### The SVD path -/
+
+/-- the model's SVD oracle and the translation's three accessors can be the same routine: for every `Env` whose `svd e` returns `e × e`
+    / `e` arrays and whose `eps` is `numeric_limits::epsilon()` -/
+theorem svdAgree_exists (env : Env ℝ) (heps : env.eps = (Limits.eps : ℝ))
+    (hsz : ∀ e A, env.svd e A = ⟨Mat.tab e e fun i j => (env.svd e A).U.get i j, Vec.tab e fun i => (env.svd e A).S.get i,
+      Mat.tab e e fun i j => (env.svd e A).V.get i j⟩) :
+    ∃ svdU svdV svdS, SvdAgree env svdU svdV svdS := by
+  refine ⟨fun c A r _ => fun i j => (env.svd c.toNat (matOf r c A)).U.get i.toNat j.toNat,
+    fun c A r _ => fun i j => (env.svd c.toNat (matOf r c A)).V.get i.toNat j.toNat,
+    fun c A r _ => fun i => (env.svd c.toNat (matOf r c A)).S.get i.toNat, heps, ?_⟩
+  intro A e he
+  rw [hsz e.toNat (matOf e e A)]
+  unfold matOf vecOf
+  congr 1
+
+/-- **History independence, translated SVD path**: the object `o` stands for the state an ARBITRARY model history reached; if the
+    specified part of that history determines the SVD estimate, the vector returned by the translated `estimateUsingSVD()` is it -/
+theorem src_history_independent_svd (env : Env ℝ) (svdU svdV : Int → (Int → Int → ℝ) → Int → String → (Int → Int → ℝ))
+    (svdS : Int → (Int → Int → ℝ) → Int → String → (Int → ℝ)) (hs : SvdAgree env svdU svdV svdS)
+    (s₀ : State ℝ) (hwf : WF s₀) (ops : List (Op ℝ)) (o : Obj ℝ) (hi : Inv o)
+    (ho : abs o = run env s₀ ops) (y : Vec ℝ)
+    (hy : (astep env (arun env (forget s₀) ops) .estimateSVD).2 = some (.vec y)) :
+    ∃ o' x n, srcSVD svdU svdV svdS o = some (o', x, n) ∧ vecOf n x = y := by
+  obtain ⟨o', x, n, h1, _, h3, _, _⟩ := svd_bridge env svdU svdV svdS hs o hi
+  refine ⟨o', x, n, h1, ?_⟩
+  have := history_independent env s₀ hwf ops .estimateSVD (.vec y) hy
+  simp only [step] at this
+  rw [h3, ho]
+  injection this
+
+/-- **The translated SVD estimate is `Ac·x + Bc` with `x` the minimiser of `‖Jx − Y‖`** (SVD contract at the current normal matrix, no
+    singular value at or below the cut), and `inverseJtJ_` afterwards is the inverse of the normal matrix -/
+theorem src_svd_minimises (env : Env ℝ) (svdU svdV : Int → (Int → Int → ℝ) → Int → String → (Int → Int → ℝ))
+    (svdS : Int → (Int → Int → ℝ) → Int → String → (Int → ℝ)) (hs : SvdAgree env svdU svdV svdS) (o : Obj ℝ) (hi : Inv o)
+    (hsvd : SVDAt env (abs o)) (heps : 0 ≤ env.eps) (hcut : NoCut env (abs o)) :
+    ∃ o' x n, srcSVD svdU svdV svdS o = some (o', x, n) ∧
+      toV (abs o).est (vecOf n x) = AcM (abs o) *ᵥ solution (abs o) + BcV (abs o) ∧
+      toM (abs o).est (abs o).est (abs o').inv * ((JM (abs o))ᵀ * JM (abs o)) = 1 ∧
+      ∀ x', C07.sq (JM (abs o) *ᵥ solution (abs o) - YV (abs o)) ≤ C07.sq (JM (abs o) *ᵥ x' - YV (abs o)) := by
+  obtain ⟨o', x, n, h1, h2, h3, _, _⟩ := svd_bridge env svdU svdV svdS hs o hi
+  have hspec := estimateSVD_spec env (abs o) hsvd heps hcut
+  exact ⟨o', x, n, h1, by rw [h3]; exact hspec.1, by rw [h2]; exact hspec.2,
+    solution_minimises (abs o) (full_rank_of_noCut env (abs o) hsvd heps hcut)⟩
+
+/-- **Translated Cholesky path = translated SVD path**: on the same object the two translated estimates are the same vector
+    (same size, same coefficients), under both oracle contracts and without a singular-value cut -/
+theorem src_cholesky_eq_svd (env : Env ℝ) (ldlt : Int → (Int → Int → ℝ) → Int → Int → (Int → Int → ℝ) → Int → (Int → Int → ℝ))
+    (hl : LdltAgree env ldlt) (svdU svdV : Int → (Int → Int → ℝ) → Int → String → (Int → Int → ℝ))
+    (svdS : Int → (Int → Int → ℝ) → Int → String → (Int → ℝ)) (hs : SvdAgree env svdU svdV svdS)
+    (hldlt : LDLTContract env) (o : Obj ℝ) (hi : Inv o)
+    (hsvd : SVDAt env (abs o)) (heps : 0 ≤ env.eps) (hcut : NoCut env (abs o)) :
+    ∃ o₁ x₁ n₁ o₂ x₂ n₂, srcCholesky ldlt o = some (o₁, x₁, n₁) ∧ srcSVD svdU svdV svdS o = some (o₂, x₂, n₂) ∧
+      n₁ = n₂ ∧ vecOf n₁ x₁ = vecOf n₂ x₂ := by
+  obtain ⟨o1, x1, n1, c1, _, c3, c4, _⟩ := cholesky_bridge env ldlt hl o hi
+  obtain ⟨o2, x2, n2, s1, _, s3, s4, _⟩ := svd_bridge env svdU svdV svdS hs o hi
+  refine ⟨o1, x1, n1, o2, x2, n2, c1, s1, by rw [c4, s4], ?_⟩
+  have heq := cholesky_eq_svd env (abs o) hsvd hldlt heps hcut
+  rw [← c3, ← s3] at heq
+  rw [c4, s4] at heq ⊢
+  apply vecOf_congr
+  intro i hlt
+  have hlt' : i < (abs o).est := by show i < o.estimateSize_.toNat; omega
+  have := congrFun heq ⟨i, hlt'⟩
+  simp only [toV_apply] at this
+  rw [vecOf_get _ _ _ hlt, vecOf_get _ _ _ hlt] at this
+  exact this
+
+/-- **A smaller problem after a larger one equals a fresh solver, translated SVD path** -/
+theorem src_svd_equals_fresh_solver (env : Env ℝ) (svdU svdV : Int → (Int → Int → ℝ) → Int → String → (Int → Int → ℝ))
+    (svdS : Int → (Int → Int → ℝ) → Int → String → (Int → ℝ)) (hs : SvdAgree env svdU svdV svdS)
+    (s₀ : State ℝ) (hwf : WF s₀) (ops : List (Op ℝ)) (o : Obj ℝ) (hi : Inv o)
+    (ho : abs o = run env s₀ ops) (hd : (arun env (forget s₀) ops).Defined true) :
+    let a := arun env (forget s₀) ops
+    let fresh := run env State.default
+      (freshOps a.est a.n (fun k => Vec.tab a.est fun c => (a.J k c).getD 0) (fun k => (a.Y k).getD 0)
+        (fun k => (a.W k).getD 0) a.Ac a.Bc)
+    ∃ o' x n, srcSVD svdU svdV svdS o = some (o', x, n) ∧ vecOf n x = (estimateSVD env fresh).2 := by
+  intro a fresh
+  obtain ⟨hv, _, _⟩ := equals_fresh_solver env s₀ hwf ops hd
+  obtain ⟨o1, x1, n1, c1, _, c3, _, _⟩ := svd_bridge env svdU svdV svdS hs o hi
+  exact ⟨o1, x1, n1, c1, by rw [c3, ho]; exact hv⟩
+
+/-! ### A whole history AND the final estimate through the translated code -/
+
+/-- the state a translated object stands for is a well-formed model object (`WF` of `Properties/C07.lean`) -/
+theorem wf_abs (o : Obj ℝ) (hi : Inv o) : WF (abs o) := by
+  have hJr := hi.J_rows_eq; have hWr := hi.W_rows_eq
+  refine ⟨?_, ?_, ?_⟩
+  · simp only [abs, matOf_size, vecOf_size, hJr]
+  · simp only [abs, vecOf_size, hWr]
+  · intro k hk
+    simp only [abs, vecOf_size] at hk
+    have hk' : k < o.J_rows.toNat := by omega
+    unfold rowSize
+    simp only [abs]
+    rw [matOf_row _ _ _ _ hk', matOf_cols, if_pos (by omega)]
+    simp [Vec.tab]
+
+/-- **History independence, start to end in the translated code**: an object satisfying `Inv` (e.g. fresh from a translated constructor)
+    is driven through ANY call history `cs` by the translated member functions / caller writes, then the translated `estimateUsingSVD()`
+    is called.  If the specified part of the model operations the calls stand for determines the SVD estimate `y` — the specification
+    level never reads the junk of a reallocation, nor a row `≥ n`, nor the initial buffer contents — the translated code returns `y`.
+    (Rows must be stated with `pokeRow` to count as specified entry by entry; see `toOp`.) -/
+theorem src_run_history_independent_svd (env : Env ℝ) (orc : Oracles ℝ) (ha : Agree env orc) (o : Obj ℝ) (hi : Inv o)
+    (cs : List (SrcOp ℝ)) (hcs : ∀ c ∈ cs, c.Ok) :
+    ∃ o' ops, srcRun orc o cs = some (o', ops) ∧
+      ∀ y, (astep env (arun env (forget (abs o)) ops) .estimateSVD).2 = some (.vec y) →
+        ∃ o'' x n, srcSVD orc.svdU orc.svdV orc.svdS o' = some (o'', x, n) ∧ vecOf n x = y := by
+  obtain ⟨o', ops, h1, h2, h3⟩ := src_run_eq env orc ha o hi cs hcs
+  exact ⟨o', ops, h1, fun y hy =>
+    src_history_independent_svd env orc.svdU orc.svdV orc.svdS ha.2 (abs o) (wf_abs o hi) ops o' h3 h2 y hy⟩
+
+/-- the same with the translated Cholesky estimate as the final call -/
+theorem src_run_history_independent_cholesky (env : Env ℝ) (orc : Oracles ℝ) (ha : Agree env orc) (o : Obj ℝ) (hi : Inv o)
+    (cs : List (SrcOp ℝ)) (hcs : ∀ c ∈ cs, c.Ok) :
+    ∃ o' ops, srcRun orc o cs = some (o', ops) ∧
+      ∀ y, (astep env (arun env (forget (abs o)) ops) .estimateCholesky).2 = some (.vec y) →
+        ∃ o'' x n, srcCholesky orc.ldlt o' = some (o'', x, n) ∧ vecOf n x = y := by
+  obtain ⟨o', ops, h1, h2, h3⟩ := src_run_eq env orc ha o hi cs hcs
+  exact ⟨o', ops, h1, fun y hy =>
+    src_history_independent_cholesky env orc.ldlt ha.1 (abs o) (wf_abs o hi) ops o' h3 h2 y hy⟩
+
+/-- **The estimate is a function of the current problem only — both objects through the translated code.**  Two translated objects with
+    arbitrary, different starting points and call histories (different capacities, junk, earlier problems of any size, estimate-size
+    changes) whose specified current problems coincide return the same vector from the translated `estimateUsingSVD()`,
+    `estimateUsingCholeskyDecomposition()` and `weightedEstimate()`.  (A used object against a brand-new one on which only the current
+    problem was stated is the special case `o₂ = srcDefault`.) -/
+theorem src_estimates_depend_on_current_problem_only (env : Env ℝ) (orc : Oracles ℝ) (ha : Agree env orc)
+    (o₁ o₂ : Obj ℝ) (h₁ : Inv o₁) (h₂ : Inv o₂) (cs₁ cs₂ : List (SrcOp ℝ)) (hc₁ : ∀ c ∈ cs₁, c.Ok) (hc₂ : ∀ c ∈ cs₂, c.Ok) :
+    ∃ o₁' ops₁ o₂' ops₂, srcRun orc o₁ cs₁ = some (o₁', ops₁) ∧ srcRun orc o₂ cs₂ = some (o₂', ops₂) ∧
+      ((arun env (forget (abs o₁)) ops₁).Defined true →
+       (arun env (forget (abs o₁)) ops₁).SameProblem (arun env (forget (abs o₂)) ops₂) →
+        (∃ p x n q x' n', srcSVD orc.svdU orc.svdV orc.svdS o₁' = some (p, x, n) ∧
+            srcSVD orc.svdU orc.svdV orc.svdS o₂' = some (q, x', n') ∧ vecOf n x = vecOf n' x') ∧
+        (∃ p x n q x' n', srcCholesky orc.ldlt o₁' = some (p, x, n) ∧ srcCholesky orc.ldlt o₂' = some (q, x', n') ∧
+            vecOf n x = vecOf n' x') ∧
+        (∃ p x n q x' n', srcWeighted orc.ldlt o₁' = some (p, x, n) ∧ srcWeighted orc.ldlt o₂' = some (q, x', n') ∧
+            vecOf n x = vecOf n' x')) := by
+  obtain ⟨p₁, ops₁, r1, a1, i1⟩ := src_run_eq env orc ha o₁ h₁ cs₁ hc₁
+  obtain ⟨p₂, ops₂, r2, a2, i2⟩ := src_run_eq env orc ha o₂ h₂ cs₂ hc₂
+  refine ⟨p₁, ops₁, p₂, ops₂, r1, r2, fun hd hsame => ?_⟩
+  obtain ⟨e1, e2, e3⟩ := estimate_depends_on_current_problem_only env (abs o₁) (abs o₂) (wf_abs o₁ h₁) (wf_abs o₂ h₂) ops₁ ops₂ hd hsame
+  rw [← a1, ← a2] at e1 e2 e3
+  obtain ⟨s1, x1, n1, sa, _, sb, _, _⟩ := svd_bridge env orc.svdU orc.svdV orc.svdS ha.2 p₁ i1
+  obtain ⟨s2, x2, n2, sc, _, sd, _, _⟩ := svd_bridge env orc.svdU orc.svdV orc.svdS ha.2 p₂ i2
+  obtain ⟨c1, y1, m1, ca, _, cb, _, _⟩ := cholesky_bridge env orc.ldlt ha.1 p₁ i1
+  obtain ⟨c2, y2, m2, cc, _, cd, _, _⟩ := cholesky_bridge env orc.ldlt ha.1 p₂ i2
+  obtain ⟨w1, z1, k1, wa, _, wb, _, _⟩ := weighted_bridge env orc.ldlt ha.1 p₁ i1
+  obtain ⟨w2, z2, k2, wc, _, wd, _, _⟩ := weighted_bridge env orc.ldlt ha.1 p₂ i2
+  exact ⟨⟨s1, x1, n1, s2, x2, n2, sa, sc, by rw [sb, sd]; exact e1⟩,
+    ⟨c1, y1, m1, c2, y2, m2, ca, cc, by rw [cb, cd]; exact e2⟩,
+    ⟨w1, z1, k1, w2, z2, k2, wa, wc, by rw [wb, wd]; exact e3⟩⟩
+
+/-- non-vacuity of `src_run_history_independent_svd` / `_cholesky`: a history through the translated code starting at the translated
+    default constructor — `setEstimateSize(2)`, `setDataSize(2)` (any junk), two rows stated by a caller — meets every hypothesis, and the
+    specification-level state it reaches is completely `Defined` (so the theorems' premise "the estimate is determined" holds) -/
+example (env : Env ℝ) (orc : Oracles ℝ) (rz rzJ : Int → (Int → Int → ℝ) → Int → Int → Int → (Int → Int → ℝ)) (hk : ResizeKeeps rz)
+    (rzW rzY : (Int → ℝ) → Int → Int → (Int → ℝ)) :
+    let cs : List (SrcOp ℝ) := [.setEstimateSize 2 rz, .setDataSize 2 rzJ rzW rzY,
+      .pokeRow 0 (fun c => if c = 0 then 2 else 0) 1, .pokeRow 1 (fun c => if c = 1 then 3 else 0) 6]
+    (∀ c ∈ cs, c.Ok) ∧ Inv (srcDefault : Obj ℝ) ∧
+    ∃ o' ops, srcRun orc srcDefault cs = some (o', ops) ∧ (arun env (forget (abs (srcDefault : Obj ℝ))) ops).Defined false := by
+  intro cs
+  refine ⟨?_, default_inv, _, _, rfl, ?_⟩
+  · intro c hc
+    simp only [cs, List.mem_cons, List.mem_nil_iff, or_false] at hc
+    rcases hc with rfl | rfl | rfl | rfl
+    · exact hk
+    all_goals trivial
+  · rw [default_bridge]
+    refine ⟨?_, ?_, fun h => absurd h (by simp)⟩
+    · intro k hk' c hc
+      have hk2 : k < 2 := hk'
+      have hc2 : c < 2 := hc
+      interval_cases k <;> interval_cases c <;> rfl
+    · intro k hk'
+      have hk2 : k < 2 := hk'
+      interval_cases k <;> rfl
 
 end
 end Romea.Bridge.C07
